@@ -1211,7 +1211,43 @@ class Interp:
             if isinstance(src, Sym) and hasattr(src, 'seq_len'):
                 from .nested import NestedIntLists
                 return NestedIntLists.empty(self.ctx, z3.simplify(src.seq_len(self.ctx)))
+        if len(n.generators) == 1 and not n.generators[0].ifs:
+            g = n.generators[0]
+            src = self.expr(g.iter, env)
+            if isinstance(src, Sym) and hasattr(src, 'seq_len') and hasattr(src, 'seq_at'):
+                try:
+                    items = ops.iterate(self.ctx, src)
+                except Unsupported:
+                    return self.symbolic_listcomp(n, g, src, env)
+            else:
+                items = ops.iterate(self.ctx, src)
+            out = []
+            for x in items:
+                e2 = Env(env)
+                self.assign(g.target, x, e2)
+                out.append(self.expr(n.elt, e2))
+            return out
         return [self.expr(n.elt, e) for e in self.comp_envs(n.generators, env)]
+
+    def symbolic_listcomp(self, n, g, src, env):
+        """[elt for x in SEQ] over a sequence of SYMBOLIC length (one generator, no condition): the list has the length
+        of SEQ and its i-th item is `elt` evaluated at SEQ[i].  The element expression is evaluated once at a fresh
+        index j (under 0 <= j < len, without forking) and must be int-valued; anything else is outside the subset."""
+        from .nparr import SList
+        ctx = self.ctx
+        j = z3.Int(ctx.name('j!listcomp'))
+        length = src.seq_len(ctx)
+        e2 = Env(env)
+        try:
+            with self._pure(z3.And(0 <= j, j < length)):
+                self.assign(g.target, src.seq_at(ctx, j), e2)
+                v = self.expr(n.elt, e2)
+        except NeedFork:
+            raise Unsupported('list comprehension over a sequence of symbolic length: the element expression forks')
+        if not is_intlike(v):
+            raise Unsupported('list comprehension over a sequence of symbolic length: element %r is not an int' % (v,))
+        t = zint(v)
+        return SList(length, lambda i: z3.substitute(t, (j, i if z3.is_expr(i) else z3.IntVal(i))), 'listcomp')
 
     def ex_GeneratorExp(self, n, env):
         return LazyGen(self, n, env)
